@@ -35,6 +35,18 @@ func c17Streams(r *gen.Rand, idx int, n int, container bool) []val.Stream {
 	return out
 }
 
+// c17HistLen draws the number of documents an instance has processed before
+// the probe: 0..6 mostly, and 7..40 for one case in 16 (a leak of one entry
+// per document only overflows a 32-entry pre-allocated stack after 32).
+func c17HistLen(c *run.C) int {
+	r := c.R
+	if r.P(1, 16) {
+		c.Observe("long_histories_7_to_40", 1)
+		return 7 + r.Intn(34)
+	}
+	return r.Intn(7)
+}
+
 func idleCheck(c *run.C, what string, inst interface{}, idle []int, after string) bool {
 	if !hook.Enabled || idle == nil {
 		return true
@@ -54,7 +66,7 @@ func c17Encoders(c *run.C) {
 	r := c.R
 	cd := codec.All[c.Idx%3]
 	o := codec.JSONOptsFromIndex(r.Intn(8) | 4)
-	m := r.Intn(7)
+	m := c17HistLen(c)
 	hist := c17Streams(r, c.Idx, m, false)
 	probe := c17Streams(r, c.Idx+1, 1, false)[0]
 	c.Begin(map[string]interface{}{"codec": cd.Name, "json_opts": o.Index(), "history": hist, "probe": probe})
@@ -166,7 +178,7 @@ func c17Doc(r *gen.Rand, cd *codec.Codec, container bool) []byte {
 func c17Parsers(c *run.C) {
 	r := c.R
 	cd := codec.All[c.Idx%3]
-	m := r.Intn(7)
+	m := c17HistLen(c)
 	var hist [][]byte
 	for i := 0; i < m; i++ {
 		hist = append(hist, c17Doc(r, cd, false))
@@ -243,7 +255,7 @@ func c17Parsers(c *run.C) {
 func c17Decoders(c *run.C) {
 	r := c.R
 	cd := codec.All[c.Idx%3]
-	m := r.Intn(7)
+	m := c17HistLen(c)
 	var in []byte
 	var hx []string
 	for i := 0; i < m; i++ {
@@ -323,7 +335,7 @@ func c17Decoders(c *run.C) {
 // iterator: Fold on one Iterator for several values, types seen and unseen.
 func c17Iterator(c *run.C) {
 	r := c.R
-	m := r.Intn(7)
+	m := c17HistLen(c)
 	to := gen.GoTypeOpts{MaxDepth: 3, Extra: zoo.Supported}
 	vo := gen.GoValueOpts{BadUTF8: true, SpecialF: true}
 	type tv struct {
@@ -416,7 +428,7 @@ func c17Iterator(c *run.C) {
 // unfolder: SetTarget + document, several times, then the probe.
 func c17Unfolder(c *run.C) {
 	r := c.R
-	m := r.Intn(7)
+	m := c17HistLen(c)
 	to := gen.GoTypeOpts{MaxDepth: 3, InlineStructOnly: true, Extra: zoo.Supported}
 	vo := gen.GoValueOpts{BadUTF8: true, SpecialF: true, ZeroDropped: true}
 	type doc struct {
